@@ -66,6 +66,12 @@ def _configs():
         cfg = E.make_cfg(pi_method=pm, estimands=["turnout"], alphas=[0.5, 0.7], features=[E.FEATURE], fixed_effects={"county_classification": ["all"]}, aggregates=["postal_code", "county_fips", "unit"], model_parameters={"lambda_": 0.5})
         cfg["single_unit_level"] = True
         out.append((cfg, n))
+    # precinct data of a large state: one reporting unit with a single baseline vote among units of a million and more
+    # (its share of the total weight is below 1e-6)
+    for pm, n in (("nonparametric", 12), ("gaussian", 16)):
+        cfg = E.make_cfg(pi_method=pm, estimands=["turnout"], alphas=[0.7], features=[E.FEATURE], aggregates=["postal_code", "county_fips", "unit"])
+        cfg["tiny_unit"] = True
+        out.append((cfg, n))
     return out
 
 
@@ -162,6 +168,14 @@ def evaluate(case):
     cov = Counter()
     units = S.build_units(case)
     cfg = case["cfg"]
+    if cfg.get("tiny_unit"):
+        for u in units:
+            for k in ("b_dem", "b_gop", "b_turnout", "r_dem", "r_gop", "r_turnout"):
+                u[k] *= 1000
+        for idx in (2, 5):
+            t = [u for u in units if u["role"] == "bg"][idx]
+            t.update(b_dem=1, b_gop=0, b_turnout=1, r_dem=1, r_gop=0, r_turnout=1)
+        cov["runs_with_a_unit_below_a_millionth_of_the_weight"] += 1
     if cfg.get("single_unit_level"):
         [u for u in units if u["role"] == "bg"][3]["cls"] = "s"
         cov["runs_with_single_unit_fixed_effect_level"] += 1
